@@ -8,8 +8,10 @@ use std::panic;
 
 mod bdd;
 mod cnf;
+mod compile;
 mod dnnf;
 mod ff;
+mod order;
 mod table;
 
 pub type CaseResult = Result<(), String>;
@@ -22,6 +24,8 @@ pub fn run_case(c: &Value) -> CaseResult {
         "bdd_prog" => bdd::run(c),
         "dnnf_cond" => dnnf::run(c),
         "cnf_eval" | "pm_ops" => cnf::run(c),
+        "order_perm" => order::run(c),
+        "compile_expr" | "compile_cnf" => compile::run(c),
         _ => Err(format!("unknown case kind {kind}")),
     });
     match r {
@@ -70,6 +74,8 @@ fn main() {
                 "bdd" => bdd::candidates(&function, seed),
                 "dnnf" => dnnf::candidates(seed),
                 "cnf" => cnf::candidates(seed),
+                "order" => order::candidates(seed),
+                "compile" => compile::candidates(seed),
                 _ => vec![],
             };
             let mut tried = 0usize;
